@@ -61,3 +61,126 @@ Section Mono.
     step_inv Hst Epc; unfold finish; rewrite ?E; cbn [goto mk results]; eauto.
   Qed.
 End Mono.
+
+Section Snap.
+  Variable B : nat.
+  Hypothesis HB : 1 <= B.
+  Variable fxc : bool.
+  Notation step := (step B true fxc).
+  Variable t : nat.                          (* the snapshotting thread *)
+  Variable Ob : nat -> nat -> val -> Prop.   (* the obligation: (block, index, value) *)
+  Variable n0 : nat.                         (* number of calls t had completed when it did 530 *)
+
+  Definition covered (h : list block) (acc : list (list val)) (o : option nat) : Prop :=
+    forall d i x, Ob d i x -> In x (concat acc) \/ Reach h o d.
+
+  Definition snap_pc (h : list block) (l : local) : Prop :=
+    match pcl l with
+    | W1 false b acc | WS false b acc => covered h acc (Some b)
+    | W2 false b len acc => covered h acc (Some b) /\ forall i, i < len -> pub h b i
+    | WD false b acc => covered h acc (Some b) /\ forall i x, Ob b i x -> i < tones (bdone (getb h b))
+    | WN false b acc => covered h acc (bnxt (getb h b))
+    | _ => False
+    end.
+
+  Definition snap_done (l : local) : Prop :=
+    exists rs1 sl rs0, results l = rs1 ++ RData sl :: rs0 /\ length rs0 = n0 /\ forall d i x, Ob d i x -> In x (concat sl).
+
+  Definition SnapInv (c : @config shared local) : Prop :=
+    (forall d i x, Ob d i x -> slot (heap (fst c)) d i = Some x /\ pub (heap (fst c)) d i) /\
+    (forall l, nth_error (snd c) t = Some l ->
+               (length (results l) = n0 /\ snap_pc (heap (fst c)) l) \/ snap_done l).
+
+  Lemma covered_step s ls u l s' l' acc o :
+    Inv B (s, ls) -> nth_error ls u = Some l -> step s l = Some (s', l') ->
+    (forall r, o = Some r -> r < length (heap s)) -> covered (heap s) acc o -> covered (heap s') acc o.
+  Proof.
+    intros HI Hl Hst Hr Hc d i x Hx. destruct (Hc d i x Hx) as [H|H]; [left; exact H|right].
+    eapply (Reach_step B HB fxc); eauto.
+  Qed.
+
+  (* somebody (anybody) steps; the snapshotting thread's view stays valid *)
+  Lemma snap_pc_mono s ls u lu s' lu' l :
+    Inv B (s, ls) -> nth_error ls u = Some lu -> step s lu = Some (s', lu') ->
+    pc_ok B (heap s) l -> snap_pc (heap s) l -> snap_pc (heap s') l.
+  Proof.
+    intros HI Hl Hst Hp Hs. pose proof (links_of_heap_ok B s (proj1 HI)) as HL.
+    unfold snap_pc, pc_ok in *. destruct (pcl l); auto; destruct clr; auto.
+    - eapply covered_step; eauto. intros r E; inversion E; subst; exact Hp.
+    - destruct Hs as [Hc Hpf]. split; [eapply covered_step; eauto; intros r E; inversion E; subst; exact Hp|].
+      intros i Hi. apply (proj1 (step_block B HB fxc s ls u lu s' lu' b HI Hl Hst Hp)). auto.
+    - eapply covered_step; eauto. intros r E; inversion E; subst; exact Hp.
+    - destruct Hs as [Hc Ht]. split; [eapply covered_step; eauto; intros r E; inversion E; subst; exact Hp|].
+      intros i x Hx. pose proof (Ht i x Hx). pose proof (tones_step B HB fxc s ls u lu s' lu' b HI Hl Hst Hp). lia.
+    - rewrite (bnxt_step B fxc s ls u lu s' lu' b HI Hl Hst Hp). eapply covered_step; eauto.
+      intros r E. specialize (HL b r E). lia.
+  Qed.
+
+  Lemma In_data s ls b i x :
+    Inv B (s, ls) -> b < length (heap s) -> slot (heap s) b i = Some x -> i < tones (bdone (getb (heap s) b)) ->
+    In x (data_of (getb (heap s) b) (tones (bdone (getb (heap s) b)))).
+  Proof.
+    intros HI Hb Hs Ht. destruct (proj1 (proj1 HI) b Hb) as [Ld Ls]. cbn [fst] in Ld, Ls.
+    assert (Hn : tones (bdone (getb (heap s) b)) <= length (bslot (getb (heap s) b))).
+    { rewrite Ls, <- Ld. clear. induction (bdone (getb (heap s) b)) as [|[] r IH]; cbn; lia. }
+    pose proof (data_nth B HB (bslot (getb (heap s) b)) _ i Ht Hn) as En. unfold slot in Hs. rewrite Hs in En. cbn in En.
+    rewrite <- En. apply nth_In. unfold data_of. rewrite map_length, firstn_length. lia.
+  Qed.
+
+  Theorem Snap_step : step_preserves step (fun c => All B c /\ SnapInv c).
+  Proof.
+    intros s ls u lu s' lu' [HA [HOb HT]] Hl Hst. split; [eapply (All_step B HB fxc); eauto|].
+    pose proof HA as (HI & _). pose proof HI as (HO & HC & HP). cbn [fst snd] in *.
+    split; cbn [fst snd].
+    - intros d i x Hx. destruct (HOb d i x Hx) as [Hs Hp]. split; [eapply (slot_mono B HB fxc); eauto|].
+      apply (proj1 (step_block B HB fxc s ls u lu s' lu' d HI Hl Hst (slot_lt _ _ _ _ Hs))). exact Hp.
+    - intros l Hlt. destruct (Nat.eq_dec u t) as [->|Hne].
+      + (* the snapshotting thread itself steps *)
+        rewrite (nth_error_upd_same _ _ _ _ Hl) in Hlt. inversion Hlt; subst l. clear Hlt.
+        destruct (HT lu Hl) as [[Hn Hs]|(rs1 & sl & rs0 & Er & Hl0 & Hin)].
+        * pose proof (HP t lu Hl) as Hpl. unfold pc_ok in Hpl. unfold snap_pc in Hs.
+          assert (Eres : forall m k td rs, results (enter m k td rs) = rs) by (intros m k [|[]] rs; reflexivity).
+          step_inv Hst Epc; try contradiction; try (destruct clr; try contradiction);
+            unfold snap_pc; cbn [goto mk pcl results heap].
+          -- (* 504, block fully published *)
+             left. split; [exact Hn|]. split; [exact Hs|]. intros i x Hx.
+             match goal with E : Nat.eqb _ _ = true |- _ => apply Nat.eqb_eq in E; rewrite E end.
+             destruct (HOb _ _ _ Hx) as [_ Hp]. destruct (Nat.lt_ge_cases i B); auto.
+             unfold pub in Hp. rewrite nth_overflow in Hp by (destruct (proj1 HO b Hpl); lia). discriminate.
+          -- (* 504, not full: remember the published prefix *)
+             left. split; [exact Hn|]. split; [exact Hs|]. intros i Hi. unfold pub. apply (tones_nth B HB). exact Hi.
+          -- (* 505, quiescent *)
+             left. split; [exact Hn|]. destruct Hs as [Hc Hpf]. split; [exact Hc|]. intros i x Hx.
+             match goal with E : Nat.eqb _ _ = true |- _ => apply Nat.eqb_eq in E end.
+             destruct (HOb _ _ _ Hx) as [_ Hp].
+             assert (Hi : i < B).
+             { destruct (Nat.lt_ge_cases i B); auto. unfold pub in Hp. rewrite nth_overflow in Hp by (destruct (proj1 HO b Hpl); lia). discriminate. }
+             assert (Hw : i < bw (getb (heap s) b)).
+             { pose proof (HC b i Hpl Hi) as Hcl. unfold claim_ok in Hcl.
+               destruct (Nat.ltb i (bw (getb (heap s) b))) eqn:E'; [apply Nat.ltb_lt in E'; exact E'|].
+               destruct Hcl as (Hf & _). unfold pub in Hp. congruence. }
+             apply Nat.lt_le_trans with (m := len); [lia|]. apply (tones_ge B HB); [|exact Hpf].
+             destruct (proj1 HO b Hpl) as [Ld _]. lia.
+          -- (* 505, not quiescent: spin *) left. split; [exact Hn|]. exact (proj1 Hs).
+          -- (* spin *) left. split; [exact Hn|]. exact Hs.
+          -- (* 506: the read *)
+             left. split; [exact Hn|]. destruct Hs as [Hc Ht]. intros d i x Hx.
+             destruct (Hc d i x Hx) as [Hin|R]; [left; cbn [concat]; apply in_or_app; right; exact Hin|].
+             inversion R; subst; [|right; assumption].
+             left. cbn [concat]. apply in_or_app. left. destruct (HOb _ _ _ Hx) as [Hsl _].
+             eapply In_data; eauto.
+          -- (* 532, more blocks *) left. split; [exact Hn|].
+             match goal with E : bnxt _ = Some _ |- _ => rewrite E in Hs end. exact Hs.
+          -- (* 532, end of the chain: the call returns *)
+             right. exists [], (rev acc), (results lu). unfold finish. rewrite Eres. cbn [walk_res app]. repeat split; auto.
+             intros d i x Hx. match goal with E : bnxt _ = None |- _ => rewrite E in Hs end.
+             destruct (Hs d i x Hx) as [Hin|R]; [|destruct (Reach_None _ _ R)].
+             rewrite in_concat in *. destruct Hin as (y & Hy & Hxy). exists y. split; auto. apply in_rev in Hy. exact Hy.
+        * right. destruct (step_results B fxc s lu s' lu' Hst) as [E|[r E]]; rewrite E, Er.
+          -- exists rs1, sl, rs0. auto.
+          -- exists (r :: rs1), sl, rs0. auto.
+      + rewrite nth_error_upd_other in Hlt by auto.
+        destruct (HT l Hlt) as [[Hn Hs]|Hd]; [left|right; exact Hd].
+        split; [exact Hn|]. eapply snap_pc_mono; eauto.
+  Qed.
+End Snap.
